@@ -477,6 +477,10 @@ def r12_9(ctx, rep):
 
 def r12_5(ctx, rep):
     prog = ctx.prog
+    lc_ = C01.local_cursor_methods(prog)
+    if lc_:
+        rep.defer(f"R12.5: Scanner.{', Scanner.'.join(sorted(lc_))} keep the cursor in a local index: the lexeme slices are not followed by the cursor model")
+        return
     from .. import symexec as SX0
     from ..core import strip_docstring as _sd
     for name, conv in (("floatnum", {"float"}), ("number", {"int", "float"})):
